@@ -5,10 +5,11 @@
     wallet.go          RemoveWallet (IsWorkerBusy, CheckPrivPassphrase)
     ntfnshandler.go    OnRemoveWallet, asyncRemove (one step = one database transaction), removeWalletIndexes
     txmgr/syncstore.go MarkDeleteWallet, DeleteWalletStatus
-    txmgr/txstore.go   RemoveRelevantTx, removableTxForRemoveWallet, spendsCreditOfOtherWallet,
+    txmgr/txstore.go   RemoveRelevantTx (with the D45 repair: a tx record stays while a credit / debit under its
+                       key is left), removableTxForRemoveWallet, spendsCreditOfOtherWallet,
                        checkBlockRecordAfterTxRemoved
     txmgr/utxostore.go removeRelevantUnminedCredit, removeRelevantCredit (the 20000-credit step and the
-                       "same transaction at two heights" break), Remove{Unspent,Address,GameHistory}ByWalletId,
+                       "same transaction at two heights" break), hasCreditOrDebitOfTx, Remove{Unspent,Address,GameHistory}ByWalletId,
                        RemoveMinedBalance
     keystore/manager.go DeleteKeystore (the driver drops the wallet's `own` entries)
   on top of MW.Model.Ledger.Store.  Everything here is a filter / fold over association maps, so that
@@ -135,7 +136,14 @@ def removeUnminedTxs (own : Own) (s : Store) (addrs : List Addr) (hashes : List 
 def txRecordAt (s : Store) (id : TxId) (height : Nat) : Option ((TxId × BlockMeta) × (BlkId × Nat)) :=
   s.txrecs.find? (fun e => e.1.1 = id && e.1.2.height = height)
 
-/-- one (transaction, height) pair of heightOfTx: delete the tx record if nobody else needs it;
+/-- hasCreditOrDebitOfTx (D45 repair): a credit or a debit keyed by the tx-record key (tx hash, block height, block
+    hash) is left — `GetByPrefix(txRecordKey)` on the credits and on the debits bucket (it sees the deletions of the
+    running transaction) -/
+def inUse (s : Store) (k : TxId × BlockMeta) : Bool :=
+  s.credits.any (fun e => e.1.tx = k.1 && e.1.blk = k.2) || s.debits.any (fun e => e.1.tx = k.1 && e.1.blk = k.2)
+
+/-- one (transaction, height) pair of heightOfTx: delete the tx record if nobody else needs it and (D45 repair) no
+    credit / debit under its key is left for a later step (Rollback reaches them through this record);
     `none` = FetchTxByFileLoc failed, the whole step fails -/
 def minedStep (c : Ctx) (addrs : List Addr) (acc : Store × List (Nat × TxId)) (e : TxId × Nat) :
     Option (Store × List (Nat × TxId)) :=
@@ -145,7 +153,7 @@ def minedStep (c : Ctx) (addrs : List Addr) (acc : Store × List (Nat × TxId)) 
     match c.node.txByFileLoc rec.2 with
     | none => none
     | some tx =>
-      if removable c.own acc.1 addrs tx then
+      if removable c.own acc.1 addrs tx && !inUse acc.1 rec.1 then
         some ({ acc.1 with txrecs := AMap.erase acc.1.txrecs rec.1 }, acc.2 ++ [(rec.1.2.height, e.1)])
       else some acc
 
